@@ -538,10 +538,14 @@ def collapse_one(
             new_ent[key] = inst.fixup_key(vmf, EntityDef.engine_classes(), kv.type, value)
 
         # Remap fixups on instance entities too.
-        for key, value in new_ent.fixup.items():
+        for key, value in list(new_ent.fixup.items()):
+            # Variables of the outer instance can be passed down to nested ones.
+            new_value = inst.fixup.substitute(value, '')
             # Match Valve's bad logic here. TODO: Load the InstanceFile and remap accordingly.
-            if value and value[0] not in '@!-.0123456789':
-                new_ent.fixup[key] = inst.fixup_name(value)
+            if new_value and new_value[0] not in '@!-.0123456789':
+                new_value = inst.fixup_name(new_value)
+            if new_value != value:
+                new_ent.fixup[key] = new_value
 
         # Outputs
         for out in new_ent.outputs:
